@@ -17,10 +17,13 @@ def run(m, chk):
         "weighted inner product that reproduction tests cannot see); the interpolation nodes, both knot vectors and both weight vectors reach the least-squares matrices at both lstsq call sites (ARG-FLOW); the committed "
         "control points depend on them (DEP-MAY); the source curve is not modified. Orthogonality, optimality and the meaning of the returned error are not decided."
     )
-    chk.decides = ["TRUNC-FLOAT (no integer obtained by truncating a float quotient is used on the path: the quadrature tables are built with exact binomials)", "QUAD-ORDER (the span-by-span rule of func2func has more than 2 max(p, q) nodes: exact for the squares of both bases)", "SPANS-UNION (the Gram matrices behind every refinement / projection are integrated span by span of the union of both knot sets)", "ERROR-QUADRATIC (with interpolation constraints the reported error is the whole quadratic form in T)", "BASIS-HOMOG (the least-squares algebra is consistent under a rescaling of either basis)", "LOOP-ACCUMULATE (the error handed to the gate is not overwritten per component in a loop)", "MEMO-KEY (no function on the path is memoised by the value of numbers / knot vectors)", "PAIR (func2func)", "ARG-FLOW", "DEP-MAY of the committed points", "PURE(other)", 'POLY-ONLY', 'JACOBIAN (span sums of the Gram matrices carry the span length)', 'OPEN-NODES (the Gram quadrature samples no span end)']
+    chk.decides = ["ERROR-NONNEG (every error fit_curve returns is an absolute value, or a maximum / a sum of absolute values: non-negative whatever the rounding)", "TRUNC-FLOAT (no integer obtained by truncating a float quotient is used on the path: the quadrature tables are built with exact binomials)", "QUAD-ORDER (the span-by-span rule of func2func has more than 2 max(p, q) nodes: exact for the squares of both bases)", "SPANS-UNION (the Gram matrices behind every refinement / projection are integrated span by span of the union of both knot sets)", "ERROR-QUADRATIC (with interpolation constraints the reported error is the whole quadratic form in T)", "BASIS-HOMOG (the least-squares algebra is consistent under a rescaling of either basis)", "LOOP-ACCUMULATE (the error handed to the gate is not overwritten per component in a loop)", "MEMO-KEY (no function on the path is memoised by the value of numbers / knot vectors)", "PAIR (func2func)", "ARG-FLOW", "DEP-MAY of the committed points", "PURE(other)", 'POLY-ONLY', 'JACOBIAN (span sums of the Gram matrices carry the span length)', 'OPEN-NODES (the Gram quadrature samples no span end)']
     chk.not_decided = ["L2-orthogonality of the residual", "D = C when C lies in S", "sign / scale of the returned error"]
     pairing(r, chk, ["heavy.LeastSquare.func2func"], floor=4)
     fit_flow(r, chk)
+    from .extra import error_nonneg
+
+    error_nonneg(r, chk, "curves.Curve.fit_curve")
     from .extra import jacobian, poly_only
 
     jacobian(r, chk, ["heavy.LeastSquare.func2func"])
